@@ -100,3 +100,79 @@ pub fn recv_ctrl_capacity(v6: bool, ts: bool, secs: i64, nsecs: u32, gro: bool, 
     assert!(meta.timestamp.is_some() == ts);
     (if v6 { 1 } else { 2 }) | (if gro { 4 } else { 0 }) | (if ts { 8 } else { 0 })
 }
+
+static PAYLOAD: [u8; 64] = [0x5a; 64];
+
+/// C19 ("whatever a transmit request describes ..."): the real `prepare_msg` on an arbitrary
+/// `Transmit` (destination family, IPv4-mapped or not, ECN codepoint or none, payload of 1..=64 bytes,
+/// any segment size, explicit IPv4 / IPv6 source address or none), read back with the crate's own
+/// `cmsg::Iter` / `decode`: the message header names the destination and the payload, the traffic
+/// class carries exactly the ECN bits, UDP_SEGMENT is present exactly when the payload is longer than
+/// the segment size, and the packet info asks the kernel for exactly the requested source address
+/// (`ipi_spec_dst` - the field Linux uses for source selection on send - resp. `ipi6_addr`).
+#[cfg(any(target_os = "linux", target_os = "android"))]
+pub fn prepare_msg_encoding(dst_v6: bool, mapped: bool, dst: [u8; 4], port: u16, ecn: u8, len: usize, has_seg: bool, seg: usize, src_kind: u8, src4: [u8; 4], src6: [u8; 16], einval: bool) -> u32 {
+    if len == 0 || len > 64 || ecn > 3 || src_kind > 2 {
+        return 0;
+    }
+    let destination = if !dst_v6 {
+        SocketAddr::new(IpAddr::V4(std::net::Ipv4Addr::from(dst)), port)
+    } else if mapped {
+        SocketAddr::new(IpAddr::V6(std::net::Ipv4Addr::from(dst).to_ipv6_mapped()), port)
+    } else {
+        SocketAddr::new(IpAddr::V6(std::net::Ipv6Addr::new(0x2001, 0xdb8, 0, 0, 0, 0, dst[0] as u16, dst[1] as u16)), port)
+    };
+    let ecn_cp = match ecn { 0 => None, 1 => Some(EcnCodepoint::Ect1), 2 => Some(EcnCodepoint::Ect0), _ => Some(EcnCodepoint::Ce) };
+    let src_ip = match src_kind { 0 => None, 1 => Some(IpAddr::V4(std::net::Ipv4Addr::from(src4))), _ => Some(IpAddr::V6(std::net::Ipv6Addr::from(src6))) };
+    let transmit = Transmit { destination, ecn: ecn_cp, contents: &PAYLOAD[..len], segment_size: if has_seg { Some(seg) } else { None }, src_ip };
+    let dst_addr = socket2::SockAddr::from(destination);
+    let mut hdr: libc::msghdr = unsafe { core::mem::zeroed() };
+    let mut iov: libc::iovec = unsafe { core::mem::zeroed() };
+    let mut ctrl = cmsg::Aligned([0u8; cmsg::LEN]);
+    prepare_msg(&transmit, &dst_addr, &mut hdr, &mut iov, &mut ctrl, true, einval);
+    assert!(hdr.msg_name as *const u8 == dst_addr.as_ptr() as *const u8 && hdr.msg_namelen == dst_addr.len());
+    assert!(hdr.msg_iovlen == 1 && iov.iov_len == len && iov.iov_base as *const u8 == PAYLOAD.as_ptr());
+    let is_v4 = !dst_v6 || mapped;
+    let want_tos = !(is_v4 && einval);
+    let want_seg = has_seg && seg < len;
+    let mut w = 1u32;
+    let mut it = unsafe { cmsg::Iter::new(&hdr) };
+    if want_tos {
+        let c = it.next().expect("traffic class / TOS message missing");
+        let v = if is_v4 {
+            assert!(c.cmsg_level == libc::IPPROTO_IP && c.cmsg_type == libc::IP_TOS);
+            unsafe { cmsg::decode::<IpTosTy, libc::cmsghdr>(c) as u8 }
+        } else {
+            assert!(c.cmsg_level == libc::IPPROTO_IPV6 && c.cmsg_type == libc::IPV6_TCLASS);
+            unsafe { cmsg::decode::<libc::c_int, libc::cmsghdr>(c) as u8 }
+        };
+        assert!(EcnCodepoint::from_bits(v) == ecn_cp && v & !3 == 0);
+        w |= 2;
+    }
+    if want_seg {
+        let c = it.next().expect("UDP_SEGMENT message missing");
+        assert!(c.cmsg_level == libc::SOL_UDP && c.cmsg_type == libc::UDP_SEGMENT);
+        assert!(unsafe { cmsg::decode::<u16, libc::cmsghdr>(c) } as usize == seg);
+        w |= 4;
+    }
+    match src_kind {
+        1 => {
+            let c = it.next().expect("IP_PKTINFO message missing");
+            assert!(c.cmsg_level == libc::IPPROTO_IP && c.cmsg_type == libc::IP_PKTINFO);
+            let p = unsafe { cmsg::decode::<libc::in_pktinfo, libc::cmsghdr>(c) };
+            assert!(p.ipi_spec_dst.s_addr == u32::from_ne_bytes(src4), "requested IPv4 source address not in ipi_spec_dst");
+            assert!(p.ipi_ifindex == 0);
+            w |= 8;
+        }
+        2 => {
+            let c = it.next().expect("IPV6_PKTINFO message missing");
+            assert!(c.cmsg_level == libc::IPPROTO_IPV6 && c.cmsg_type == libc::IPV6_PKTINFO);
+            let p = unsafe { cmsg::decode::<libc::in6_pktinfo, libc::cmsghdr>(c) };
+            assert!(p.ipi6_addr.s6_addr == src6 && p.ipi6_ifindex == 0);
+            w |= 16;
+        }
+        _ => {}
+    }
+    assert!(it.next().is_none());
+    w
+}
